@@ -28,6 +28,11 @@ func (c05) Gen(dt *drv.T, c *Ctx) any {
 		MaxStmts: c.Pick(6, 8), Repeat: true, Cleanups: true, Skips: false, SigPct: 95,
 		SigKinds: append(append([]string{"Errorf"}, fatalKinds...), panicKinds...),
 	}
+	if vis {
+		// the visualisation renders one image per accepted step, each as large as the recording: with unbounded nested
+		// collections (recordings of 50,000 words, a thousand steps) one case kept a shard busy for over an hour
+		pc.Gen.LenCap = 6
+	}
 	cs.Prog = GenProg(dt, pc)
 	// several failure sites guarded by different conditions on different draws
 	extra := drv.IntRange(1, 3).Draw(dt, "extrasites")
